@@ -181,6 +181,7 @@ prop('C06', [
     memo.r_memo,
     misc.r_visit,
     bounds.r_accept,
+    models.r_collect,
 ],
     'find_or_add and swap accept exactly the arguments of their contract '
     '(prologue interpreted over small models: no edge to a node that does '
@@ -454,7 +455,9 @@ MODEL_TEXT = {
            'call and reset after it; identifiers that begin with a '
            'keyword probed through the source-level lexer.',
     'C06': ' Models: `incref` / `decref`, `find_or_add` (count zero, one '
-           'reference per edge).',
+           'reference per edge); `collect_garbage` on managers that hold '
+           'garbage, for every choice of referenced functions, with and '
+           'without roots to start from.',
     'C07': ' Models: `swap` on nine managers (levels exchanged, outside '
            'references keep number and function, tables and counts '
            'consistent, per-level index exact, sizes returned); the '
